@@ -71,6 +71,39 @@ fn case(k: usize, n: usize) -> Result<(), String> {
             ensure!(par.to_bits() == seq.to_bits() || (par.is_nan() && seq.is_nan()), "workers={} length={}: entry {} at index {}: dot_f64 = {} but dot = {}", k, n, v, j, par, seq);
         }
     }
+    // TWO non-finite contributions of different kinds (+inf and -inf, inf and NaN, finite entries whose products overflow with both
+    // signs): NaN under every association, as the sequential dot says - a worker that stops early or a partial sum that is dropped
+    // turns it into an infinity. And a ZERO vector against entries inf / NaN: 0 * inf = NaN in every order, never 0
+    if n >= 2 {
+        for (j1, j2) in [(0usize, n - 1), ((2 * n) / 3, n / 3)] {
+            if j1 == j2 {
+                continue;
+            }
+            for (v1, v2, scale) in [(f64::INFINITY, f64::NEG_INFINITY, 1.0), (f64::INFINITY, f64::NAN, 1.0), (f64::NEG_INFINITY, f64::INFINITY, 1.0), (1e308, -1e308, 1e10)] {
+                let (mut a, mut b) = integer_data(n);
+                a[j1] = v1;
+                a[j2] = v2;
+                b[j1] = b[j1].abs().max(1.0) * scale;
+                b[j2] = b[j2].abs().max(1.0) * scale;
+                let (va, vb) = (Vector::create(a), Vector::create(b));
+                let (seq, par) = (va.dot(&vb), if j1 == 0 { va.dot_f64(&vb) } else { vb.dot_f64(&va) });
+                ensure!(seq.is_nan(), "sequential dot with {} at {} and {} at {}: {} expected NaN", v1, j1, v2, j2, seq);
+                ensure!(par.is_nan(), "workers={} length={}: entries {} at {} and {} at {} (x {}): dot_f64 = {} but dot = NaN", k, n, v1, j1, v2, j2, scale, par);
+            }
+        }
+    }
+    if n >= 1 {
+        // (position, value and sign of the zero rotate with n: every combination occurs for every worker count)
+        let j = (2 * n) / 3;
+        let v = [f64::INFINITY, f64::NEG_INFINITY, f64::NAN][n % 3];
+        let z = if (n / 3) % 2 == 0 { 0.0f64 } else { -0.0 };
+        let mut w = vec![1.5; n];
+        w[j] = v;
+        let (vz, vw) = (Vector::create(vec![z; n]), Vector::create(w));
+        let (seq, p1, p2) = (vz.dot(&vw), vz.dot_f64(&vw), vw.dot_f64(&vz));
+        ensure!(seq.is_nan(), "sequential dot of a zero vector against an entry {}: {} expected NaN", v, seq);
+        ensure!(p1.is_nan() && p2.is_nan(), "workers={} length={}: zero vector ({:?}) against an entry {} at {}: dot_f64 = {} / {} but dot = NaN", k, n, z, v, j, p1, p2);
+    }
     // products that are NOT exact while every partial sum of the rounded products is: x = (1, a, 1, a, ..), w = (-(1 + 2^-26), a, ..) with
     // a = 1 + 2^-27; fl(a * a) = 1 + 2^-26, so every product is +-(1 + 2^-26) and any sum of them is a small multiple of it. Only
     // re-association is allowed to differ from the sequential dot - a fused multiply-add is not a re-association
@@ -124,7 +157,7 @@ fn case(k: usize, n: usize) -> Result<(), String> {
 fn main() {
     let ctx = Ctx::from_args("C16");
     ctx.level("model_checking");
-    ctx.rule("Configuration sweep (guard off, real OS threads): every worker count k = 1..min(16, CPUs available) - set through the CPU affinity of the calling thread and confirmed by num_cpus::get() == k - x every length 0..=200: integer-valued data must be bit-identical to the sequential dot and to an exact i128 dot product; reassociation-sensitive data must stay within 4 n eps sum|a_i b_i| and be bit-identical over repeated calls; one infinite, NaN or 1e308 entry among small integers (a value every association agrees on) must give the sequential result; data whose products are inexact but whose rounded products have exact partial sums, and data whose products are all -0.0 or all the smallest subnormal, must be bit-identical to the sequential dot; the vector against itself (one object) equals the sum of squares; each case ends with a sequence of shorter calls (length 0, < workers, 1) on the same thread, which must be exact (no state carried between calls). Non-trivial: lengths below, equal to, above and not divisible by the worker count with k >= 2.");
+    ctx.rule("Configuration sweep (guard off, real OS threads): every worker count k = 1..min(16, CPUs available) - set through the CPU affinity of the calling thread and confirmed by num_cpus::get() == k - x every length 0..=200: integer-valued data must be bit-identical to the sequential dot and to an exact i128 dot product; reassociation-sensitive data must stay within 4 n eps sum|a_i b_i| and be bit-identical over repeated calls; one infinite, NaN or 1e308 entry among small integers (a value every association agrees on) must give the sequential result; two non-finite contributions of different kinds (+inf / -inf, inf / NaN, products overflowing with both signs) at the position pairs (0, n-1) and (2n/3, n/3), and a zero vector (+0.0 or -0.0) against an entry inf / -inf / NaN, must give NaN; data whose products are inexact but whose rounded products have exact partial sums, and data whose products are all -0.0 or all the smallest subnormal, must be bit-identical to the sequential dot; the vector against itself (one object) equals the sum of squares; each case ends with a sequence of shorter calls (length 0, < workers, 1) on the same thread, which must be exact (no state carried between calls). Non-trivial: lengths below, equal to, above and not divisible by the worker count with k >= 2.");
     ctx.assume("the sweep runs free (uncontrolled OS scheduling): it decides the configuration/length quantifiers; scheduling independence is decided by the shuttle exploration");
     let cpus = allowed_cpus();
     let kmax = cpus.len().min(16);
